@@ -66,3 +66,67 @@ func VerifReplaceOp(arg string) {
 }
 
 func init() { vRegisterP("VerifReplaceOp", VerifReplaceOp) }
+
+// VerifReplaceTwo: one call replaces two workloads that live in different pods
+// (w1 on node a / pod p1, w2 on node b / pod p2), no pod named in the request.
+// arg: fault=<max fault position>
+func VerifReplaceTwo(arg string) {
+	c, w, amounts := vMkWorldOn(2, vParam(arg, "fault", 0), 2)
+	// w2 sits on node b, which belongs to another pod
+	w.st.nodes["b"].Podname = "p2"
+	w2 := w.st.workloads["w2"]
+	if w2.Nodename != "b" {
+		vAssume(false)
+	}
+	w2.Podname = "p2"
+	lg := &vWAL{w: w}
+	c.wal = lg
+	opts := &types.ReplaceOptions{
+		DeployOptions: types.DeployOptions{Name: "app", Image: "img", IgnorePull: true, Entrypoint: &types.Entrypoint{Name: "entry"}},
+		IDs:           []string{"w1", "w2"},
+	}
+	ch, err := c.ReplaceWorkload(context.Background(), opts)
+	vAssert("C11/replace-accepted", err == nil)
+	if err != nil {
+		return
+	}
+	byOld := map[string]*types.ReplaceWorkloadMessage{}
+	n := 0
+	for m := range ch {
+		n++
+		if m.Remove != nil {
+			byOld[m.Remove.WorkloadID] = m
+		}
+	}
+	vObserve("fault_site", w.site)
+	vKnown("F-C10-replace-old-not-removed", w.site == "store.RemoveWorkload" || w.site == "engine.VirtualizationRemove")
+	// every workload named in the request is reported, once
+	vAssert("C11/replace-reports-every-requested-workload", n == 2 && byOld["w1"] != nil && byOld["w2"] != nil)
+	for k, id := range []string{"w1", "w2"} {
+		m := byOld[id]
+		if m == nil {
+			continue
+		}
+		_, oldRecorded := w.st.workloads[id]
+		if m.Error != nil {
+			vAssert("C11/failed-replace-keeps-old-workload-recorded", oldRecorded)
+			vAssert("C11/failed-replace-keeps-old-workload-running", w.running[id])
+			continue
+		}
+		vCover("replaced-in-its-own-pod", true)
+		vAssert("C11/replace-removes-old-workload", !oldRecorded)
+		if m.Create != nil {
+			nw, ok := w.st.workloads[m.Create.WorkloadID]
+			vAssert("C11/replace-new-workload-recorded-with-same-resources", ok && vAmount(nw.Resources) == amounts[k])
+			if ok {
+				vAssert("C11/replace-new-workload-stays-on-its-node-and-pod", nw.Nodename == []string{"a", "b"}[k] && nw.Podname == []string{"p1", "p2"}[k])
+			}
+		}
+	}
+	for node := range w.st.nodes {
+		vAssert("C10,C11/usage-equals-sum-of-recorded-workloads", w.usage[node] == vLedgerSumOn(w, node))
+	}
+	vAssert("C20/everything-released", len(w.st.held) == 0)
+}
+
+func init() { vRegisterP("VerifReplaceTwo", VerifReplaceTwo) }
